@@ -57,7 +57,7 @@ def setup_worker(ctx):
 
 
 def gen_defn(rng, tier, cpp):
-    return gen.program(rng, n_state=(3, 5) if cpp else (3, 6), n_control=(0, 2), n_calib=(0, 2), n_sensor=(1, 2),
+    return gen.program(rng, n_state=(3, 5) if cpp else (3, 6), n_control=(0, 3), n_calib=(0, 2), n_sensor=(1, 2),
                        n_reading=(2, 3), depth=2 if cpp else 3, n_shared=(2, 4), integrator_bias=0.3)
 
 
@@ -223,8 +223,48 @@ def _py(R, rng, ctx):
             if not R.samples:
                 R.samples.append({"kind": "py", "definition": K.brief_defn(defn), "point": pt,
                                   "cse_on": a["model"], "cse_off": b_["model"]})
+        _role_swapped_twin(R, rng, defn)
     finally:
         armed.disarm()
+
+
+def _role_swapped_twin(R, rng, defn):
+    """The same statements compiled again in this interpreter with one symbol moved from control to
+    calibration (which permutes the positional argument list): results by name must still match the
+    oracle with CSE on and off.  State carried between compilations shows here."""
+    if len(defn["control"]) < 2:
+        return
+    moved = sorted(defn["control"])[-1]
+    twin = dict(defn)
+    twin["control"] = [c for c in defn["control"] if c != moved]
+    twin["calibration"] = list(defn["calibration"]) + [moved]
+    val = round(rng.uniform(0.3, 2.0), 3)
+    twin["calibration_map"] = dict(defn["calibration_map"], **{moved: val})
+    twin["process_noise"] = {c: v for c, v in defn["process_noise"].items() if c != moved}
+    twin["containers"] = dict(defn.get("containers", {}), calibration="set")
+    orc = O.Oracle(twin)
+    for c in (True, False):
+        try:
+            m = build.Built(twin).py_model(common_subexpression_elimination=c)
+        except Exception as e:  # noqa: BLE001
+            R.add([K.V(K.exc_key("compile", e), f"role-swapped twin: compile raised: {K.exc_text(e)}", defn=twin)])
+            return
+        for _ in range(3):
+            pt = gen.point(rng, twin, scale=1.0)
+            try:
+                got = monitors.vec_dict(m.model(float(pt[twin["dt"]]), m.State(**{s_: pt[s_] for s_ in twin["state"]}),
+                                                m.Control(**{u: pt[u] for u in twin["control"]})))
+            except Exception as e:  # noqa: BLE001
+                R.add([K.V(K.exc_key("py", e), f"role-swapped twin (CSE={c}) raised: {K.exc_text(e)}", defn=twin, point=pt)])
+                return
+            vs = monitors.check_named_values(got, orc.model(orc.env(pt)), "py:role-swap-twin",
+                                             f"Model.model of the role-swapped twin (CSE={c}, {moved} moved from control to calibration)",
+                                             R.stats, tag="model")
+            for v in vs:
+                v["witness"].update(defn=twin, original=defn, point=pt, cse=c, moved=moved)
+            R.add(vs)
+            R.stats.inc("role_swapped_twin_points")
+            R.evals += 1
 
 
 def _cpp(R, rng, ctx, i):
